@@ -138,9 +138,10 @@ func batchToRequests(connectionGroup []builderSlotGroup) []requestBatch {
 				batch.UnitID = unitID
 			}
 
-			slotEndAddress := slotAddress + slot.size
-			addressDiff := slotEndAddress - firstAddress
-			if addressDiff > addressLimit {
+			// computed in 32 bits: slotAddress + slot.size can exceed 65535 and must not wrap around
+			slotEndAddress := uint32(slotAddress) + uint32(slot.size)
+			addressDiff := slotEndAddress - uint32(firstAddress)
+			if addressDiff > uint32(addressLimit) {
 				result = append(result, batch)
 
 				batch = requestBatch{
@@ -149,10 +150,10 @@ func batchToRequests(connectionGroup []builderSlotGroup) []requestBatch {
 					StartAddress: slotAddress,
 				}
 				firstAddress = slotAddress
-				addressDiff = slot.size
+				addressDiff = uint32(slot.size)
 			}
-			if batch.Quantity < addressDiff {
-				batch.Quantity = addressDiff
+			if uint32(batch.Quantity) < addressDiff {
+				batch.Quantity = uint16(addressDiff)
 			}
 
 			batch.fields = append(batch.fields, slot.fields...)
